@@ -8,7 +8,7 @@ CONSTANTS
   FixRollback = FALSE
   H = 4
   CatSel = {1, 2, 3, 4, 5, 6, 7, 8, 9, 10, 11, 12, 13, 14, 15}
-  WideCats = {1, 2, 3, 5, 6, 10, 14}
+  WideCats = {1, 5, 14}
 INVARIANT TypeOK
 INVARIANT NoClobber
 INVARIANT EsInv
